@@ -89,6 +89,7 @@ class AbstractEval:
         self.globals: Dict[str, Any] = {}  # free names -> model values
         self.funcs: Dict[str, Callable] = {}  # modelled builtins (called with evaluated arguments)
         self.cur: List[FuncInfo] = []  # inlining stack (module context for name resolution)
+        self.symbolic_cmp: Optional[Callable[[Any, Any], bool]] = None  # operands whose comparison builds a value
         self.depth = 0
         self.max_depth = max_depth
         self.type_of: Dict[str, str] = {}
@@ -174,6 +175,10 @@ class AbstractEval:
             return App("neg", (v,))
         if isinstance(e, ast.Compare):
             left = self.ev(e.left, env)
+            if len(e.ops) == 1 and self.symbolic_cmp is not None:
+                right = self.ev(e.comparators[0], env)
+                if self.symbolic_cmp(left, right) and isinstance(e.ops[0], (ast.Eq, ast.NotEq, ast.Lt, ast.LtE, ast.Gt, ast.GtE)):
+                    return App(type(e.ops[0]).__name__, (left, right))
             for op, c in zip(e.ops, e.comparators):
                 right = self.ev(c, env)
                 if not self.cmp(op, left, right):
@@ -426,6 +431,7 @@ def explore(
     globals_: Optional[Dict[str, Any]] = None,
     funcs: Optional[Dict[str, Callable]] = None,
     type_of: Optional[Dict[str, str]] = None,
+    symbolic_cmp: Optional[Callable[[Any, Any], bool]] = None,
 ) -> List[Tuple[Dict[Tuple, Any], Tuple, List[App]]]:
     """Enumerate every consistent path of `fn`; returns [(valuation, outcome, calls)]."""
 
@@ -442,6 +448,7 @@ def explore(
         ae = AbstractEval(prog, val, inline=inline, field_types=field_types, const_attrs=const_attrs)
         ae.globals = dict(globals_ or {})
         ae.funcs = dict(funcs or {})
+        ae.symbolic_cmp = symbolic_cmp
         for p_, t_ in (type_of or {}).items():
             ae.type_of[p_] = t_
         if self_type and args and isinstance(args[0], Sym):
